@@ -409,14 +409,12 @@ class EquationSolver(object):
             Logger('Had evaluation errors')
             raise ValueError(last_error)
         Logger('Number of iterations: {0}'.format(num_tries), priority=3)
-        # Then: append values to the time series
-        varlist = [x[0] for x in self.Parser.Endogenous] + [x[0] for x in self.Parser.Lagged]
-        for var in varlist:
-            assert (len(self.TimeSeries[var]) == step)
-            self.TimeSeries[var].append(initial[var])
-        # Finally: augment with decorative variables
+        # Evaluate the decorative variables first (into a holding dictionary): nothing is appended to the
+        # time series until every value of the period has been computed, so that an evaluation error in a
+        # decorative equation leaves all series at the same length.
         # This is complicated as decorative variables may depend upon other decorative variables
         # Create a holding variable that lists the equations, and keep iterating through the list
+        decoration_values = []
         vars_to_compute = []
         for var, eqn in self.Parser.Decoration:
             vars_to_compute.append((var, eqn))
@@ -427,7 +425,7 @@ class EquationSolver(object):
                 try:
                     val = eval(eqn, globals(), initial)
                     initial[var] = val
-                    self.TimeSeries[var].append(val)
+                    decoration_values.append((var, val))
                 except NameError:
                     failed.append((var, eqn))
             # If we failed on every single decoration variable, something is wrong.
@@ -441,6 +439,13 @@ class EquationSolver(object):
                     Logger(out)
                 raise ValueError('Cannot solve decoration equations!\n'+out)
             vars_to_compute = failed
+        # Then: append values to the time series
+        varlist = [x[0] for x in self.Parser.Endogenous] + [x[0] for x in self.Parser.Lagged]
+        for var in varlist:
+            assert (len(self.TimeSeries[var]) == step)
+            self.TimeSeries[var].append(initial[var])
+        for var, val in decoration_values:
+            self.TimeSeries[var].append(val)
 
     def SolveEquation(self):
         if len(self.VariableList) == 0:
